@@ -147,3 +147,23 @@ where
             .collect())
     }
 }
+
+/// Parses the base part of a change record: (previous stamp, previous stored length,
+/// start of the truncated run, truncated values, previously pushed values).
+#[cfg(feature = "verif")]
+#[allow(clippy::type_complexity)]
+pub fn verif_parse_base_change<T: VecValue + Bytes>(
+    bytes: &[u8],
+) -> Result<(Stamp, usize, usize, Vec<T>, Vec<T>)> {
+    let mut c = ChangeCursor::new(bytes);
+    let d = ReadWriteBaseVec::<usize, T>::parse_change_data(&mut c, size_of::<T>(), |b| {
+        T::from_bytes(b)
+    })?;
+    Ok((
+        d.prev_stamp,
+        d.prev_stored_len,
+        d.truncated_start,
+        d.truncated_values,
+        d.prev_pushed,
+    ))
+}
